@@ -34,21 +34,27 @@ Definition ex_map {T U} (f : T -> U) (x : Exact T) : Exact U := mkEx (f (exv x))
 (* usize = u64 on the platforms the check runs on *)
 Definition usize_limit : N := 2 ^ 64.
 
-(* BigRat::try_as_usize (bigrat.rs:152): reject a negative number, simplify
-   (divide by the gcd; a no-op when the denominator is 1), reject a fraction,
-   then BigUint::try_as_usize, which since the fix commit 2c2d128 counts
-   significant limbs, i.e. accepts exactly the values below 2^64.           *)
-Definition rat_try_as_usize (q : Q) : option N :=
+(* a BigRat that is a natural number (any size): not negative, and after
+   simplify (divide by the gcd; a no-op when the denominator is 1) the
+   denominator is 1.  This is the acceptance test shared by
+   BigRat::try_as_usize (bigrat.rs:152) and BigRat::modulo (bigrat.rs:458). *)
+Definition rat_as_nat (q : Q) : option N :=
   if (Qnum q <? 0)%Z then None
   else
     let n := Z.to_N (Qnum q) in
     let d := Npos (Qden q) in
-    if d =? 1 then (if n <? usize_limit then Some n else None)
+    if d =? 1 then Some n
     else
       let g := N.gcd n d in
-      if negb (d / g =? 1) then None
-      else let n' := n / g in
-           if n' <? usize_limit then Some n' else None.
+      if negb (d / g =? 1) then None else Some (n / g).
+
+(* BigRat::try_as_usize: ... then BigUint::try_as_usize, which (since fix
+   commit 2c2d128) accepts exactly the values below 2^64 *)
+Definition rat_try_as_usize (q : Q) : option N :=
+  match rat_as_nat q with
+  | Some n => if n <? usize_limit then Some n else None
+  | None => None
+  end.
 
 (* ------------------------------------------------------------------ *)
 (* BigUint::root_n (biguint.rs:231): integer bisection; (root, exact?)   *)
@@ -185,15 +191,15 @@ Definition log2_10_bits : N := 4614662735865160561.   (* 0x400A934F0979A371 *)
 
 Definition rat_log2 (Fo : oracles) (q : Q) : res Q :=
   if qle q 0 then Err EOutOfRange
-  else Ok (from_f64 (fl_sub (biguint_log2 (Fo Flog2) (q_num_abs q))
-                            (biguint_log2 (Fo Flog2) (q_den q)))).
+  else from_f64 (fl_sub (biguint_log2 (Fo Flog2) (q_num_abs q))
+                        (biguint_log2 (Fo Flog2) (q_den q))).
 
 (* BigRat::{sin .. exp} (bigrat.rs:221-321, 984) *)
 Definition rat_fn (Fo : oracles) (f : fname) (q : Q) : res (Exact Q) :=
-  let br := Ok (mkEx (bridge (Fo f) q) false) in
+  let br := (do v <- bridge (Fo f) q; Ok (mkEx v false)) in
   match f with
   | Fsin => if qeq q 0 then Ok (mkEx 0%Q true) else br
-  | Fcos => br                                  (* no BigRat::cos; see real_arg *)
+  | Fcos => br                                  (* no BigRat::cos; see real_cos *)
   | Fasin | Facos => if qlt 1 q || qlt q (-1 # 1)%Q then Err EOutOfRange else br
   | Fatan | Fsinh | Fcosh | Ftanh | Fasinh => br
   | Facosh => if qlt q 1 then Err EOutOfRange else br
@@ -201,9 +207,11 @@ Definition rat_fn (Fo : oracles) (f : fname) (q : Q) : res (Exact Q) :=
   | Flog2 => do l <- rat_log2 Fo q; Ok (mkEx l false)
   | Fln => if qeq q 1 then Ok (mkEx 0%Q true)
            else do l <- rat_log2 Fo q;
-                Ok (mkEx (l / from_f64 (fl_of_bits log2_e_bits))%Q false)
+                do c <- from_f64 (fl_of_bits log2_e_bits);
+                Ok (mkEx (l / c)%Q false)
   | Flog10 => do l <- rat_log2 Fo q;
-              Ok (mkEx (l / from_f64 (fl_of_bits log2_10_bits))%Q false)
+              do c <- from_f64 (fl_of_bits log2_10_bits);
+              Ok (mkEx (l / c)%Q false)
   | Fexp => if (Qnum q =? 0)%Z then Ok (mkEx 1%Q true) else br
   end.
 
@@ -215,26 +223,42 @@ Definition rat_fn_queries (f : fname) (q : Q) : list N :=
   | _ => [fl_bits (into_f64 q)]
   end.
 
-(* Real::sin on a non-negative multiple n of pi (real.rs:190-205) *)
+(* the table of Real::sin (real.rs:200-212) on an integer k = 6n (or on its
+   residue mod 12: the conditions only look at k mod 6 and k mod 12) *)
+Definition sin_table_of (k : N) : option Q :=
+  if k mod 6 =? 0 then Some 0%Q
+  else if k mod 12 =? 3 then Some 1%Q
+  else if k mod 12 =? 9 then Some (-1 # 1)%Q
+  else if (k mod 12 =? 1) || (k mod 12 =? 5) then Some (1 # 2)%Q
+  else if (k mod 12 =? 7) || (k mod 12 =? 11) then Some (-1 # 2)%Q
+  else None.
+
+(* Real::sin on a non-negative multiple n of pi (real.rs:190-198, since fix
+   commit 06c1b45): (6n).modulo(12) -- defined iff 6n is a natural number of
+   any size -- then try_as_usize of the residue, then the table *)
 Definition sin_pi_table (n : Q) : option Q :=
-  match rat_try_as_usize (n * 6)%Q with
-  | Some k =>
-    if k mod 6 =? 0 then Some 0%Q
-    else if k mod 12 =? 3 then Some 1%Q
-    else if k mod 12 =? 9 then Some (-1 # 1)%Q
-    else if (k mod 12 =? 1) || (k mod 12 =? 5) then Some (1 # 2)%Q
-    else if (k mod 12 =? 7) || (k mod 12 =? 11) then Some (-1 # 2)%Q
-    else None
+  match rat_as_nat (n * 6)%Q with
+  | Some k => match rat_try_as_usize (inject_Z (Z.of_N (k mod 12))) with
+              | Some r => sin_table_of r
+              | None => None
+              end
   | None => None
   end.
 
-Definition real_sin (Fo : oracles) (r : real) : res (Exact real) :=
+(* before that commit: try_as_usize of 6n itself, so 6n >= 2^64 was not looked up *)
+Definition sin_pi_table_old (n : Q) : option Q :=
+  match rat_try_as_usize (n * 6)%Q with
+  | Some k => sin_table_of k
+  | None => None
+  end.
+
+Definition real_sin_with (tbl : Q -> option Q) (Fo : oracles) (r : real) : res (Exact real) :=
   match r with
   | RSimple s => do v <- rat_fn Fo Fsin s; Ok (ex_map RSimple v)
   | RPi n =>
     let neg := qlt n 0 in
     let n' := if neg then Qopp n else n in
-    match sin_pi_table n' with
+    match tbl n' with
     | Some v => Ok (mkEx (RSimple (if neg then Qopp v else v)) true)
     | None =>
       do v <- rat_fn Fo Fsin (n' * pi_model)%Q;
@@ -242,7 +266,10 @@ Definition real_sin (Fo : oracles) (r : real) : res (Exact real) :=
     end
   end.
 
-(* Real::cos (real.rs:214): sin (x + pi/2) through Exact<Real>::add *)
+Definition real_sin : oracles -> real -> res (Exact real) := real_sin_with sin_pi_table.
+Definition real_sin_old : oracles -> real -> res (Exact real) := real_sin_with sin_pi_table_old.
+
+(* Real::cos (real.rs:222): sin (x + pi/2) through Exact<Real>::add *)
 Definition real_is_zero (r : real) : bool :=
   match r with RSimple q | RPi q => (Qnum q =? 0)%Z end.
 
@@ -256,15 +283,26 @@ Definition rat_add (a b : Q) : Q :=
     let g := Z.gcd da db in
     Qmake (Qnum a * db / g + Qnum b * da / g) (Z.to_pos (da * db / g)).
 
-Definition cos_shift (r : real) : real :=
-  if real_is_zero r then RPi (1 # 2)%Q
+(* x + pi/2 and the exactness flag of that sum (Exact<Real>::add: an exact
+   zero returns the other operand; Pi + Pi stays exact; a rational plus a
+   multiple of pi is approximated and marked so) *)
+Definition cos_shift_ex (r : real) : real * bool :=
+  if real_is_zero r then (RPi (1 # 2)%Q, true)
   else match r with
-       | RSimple a => RSimple (rat_add a ((1 # 2) * pi_model)%Q)
-       | RPi a => RPi (rat_add a (1 # 2)%Q)
+       | RSimple a => (RSimple (rat_add a ((1 # 2) * pi_model)%Q), false)
+       | RPi a => (RPi (rat_add a (1 # 2)%Q), true)
        end.
 
+Definition cos_shift (r : real) : real := fst (cos_shift_ex r).
+
+(* since fix commit bd3b9a9 the flag of the sum is kept (`combine`) *)
 Definition real_cos (Fo : oracles) (r : real) : res (Exact real) :=
-  real_sin Fo (cos_shift r).
+  do v <- real_sin Fo (cos_shift r);
+  Ok (mkEx (exv v) (exb v && snd (cos_shift_ex r))).
+
+(* before: the flag of the sum was dropped, and the table was the old one *)
+Definition real_cos_old (Fo : oracles) (r : real) : res (Exact real) :=
+  real_sin_old Fo (cos_shift r).
 
 (* Complex::tan on a real argument (complex.rs:391): sin / cos through
    Exact<Complex>::div; both of its paths give the value sin/cos, flag
@@ -311,11 +349,14 @@ Definition real_fn_queries (f : fname) (r : real) : list N :=
 (* with Fcos routed to the sin oracle, as the code does *)
 Definition route (Fo : oracles) : oracles := fun f => Fo (libm_of f).
 
-(* Real::pow (real.rs:354) *)
+(* Real::pow (real.rs:366) *)
 Definition is_simple_one (r : real) : bool :=
   match r with RSimple n => qeq n 1 | RPi _ => false end.
 
-Definition real_pow (a b : real) : res (Exact real) :=
+Definition is_simple_zero (r : real) : bool :=
+  match r with RSimple n => qeq n 0 | RPi _ => false end.
+
+Definition real_pow_old (a b : real) : res (Exact real) :=
   if is_simple_one b then Ok (mkEx a true)                     (* x^1 == x *)
   else if is_simple_one a then Ok (mkEx (RSimple 1%Q) true)    (* 1^x == 1 *)
   else
@@ -324,6 +365,12 @@ Definition real_pow (a b : real) : res (Exact real) :=
     | _, _ => do v <- rat_pow (approximate a) (approximate b);
               Ok (mkEx (RSimple (exv v)) false)
     end.
+
+(* since fix commit d3c0150: x^0 == 1 for x != 0, whatever the pattern *)
+Definition real_pow (a b : real) : res (Exact real) :=
+  if is_simple_one b then Ok (mkEx a true)
+  else if is_simple_zero b && negb (real_is_zero a) then Ok (mkEx (RSimple 1%Q) true)
+  else real_pow_old a b.
 
 (* ------------------------------------------------------------------ *)
 (* Angle units (units/builtin.rs:256-282), resolved to multiples of pi by
